@@ -228,6 +228,19 @@ CHECKS['C14'] = dict(
     technique="TLA+ cycle machine model-checked + recorded cycles replayed through the same step operator by TLC",
     ref="DESIGN.md section 5 C14")
 
+CHECKS['C12'] = dict(
+    text=("MC_LSML (TLC): the ten-step line search over an abstract loss oracle - the best loss strictly decreases along "
+          "accepted iterations, is never above the loss at the prior, and an early stop is either stationary or a point "
+          "where no trial step improves. Conformance: real LSML / LSML_Supervised fits over priors x weights (None, list, "
+          "array, rescaled) x tol x budgets; TLC (TR_LSML) verifies the witnesses (inverses, Cholesky factors, sqrt(d_ab "
+          "d_cd), quotients, normalised weights; logs tabulated) and evaluates the documented objective and its analytic, "
+          "WEIGHTED gradient exactly: SPD, f(M) <= f(prior), prior returned when no constraint is violated under it, "
+          "||grad f(M)||_F <= tol whenever the solver stopped before max_iter, and equality of the metrics learned with "
+          "weights w and c w."),
+    note=("libm log is trusted (logdet through the Cholesky diagonal). 'Stopped before max_iter' is n_iter_ < max_iter."),
+    technique="TLA+ line-search machine model-checked + objective/gradient certificate evaluated by TLC on recorded fits",
+    ref="DESIGN.md section 5 C12")
+
 NOT_YET = {}
 
 def main():
